@@ -60,6 +60,9 @@ type interpreter struct {
 	initFailed []string
 	clock    int64
 	ghost    map[string]value
+	pendingGo []pendingGo
+	goDepth   int
+	parkedOn  map[*channel]bool
 	depth    int
 	maxSteps int64
 	tracing  bool
